@@ -1,10 +1,119 @@
-/- Line-protocol handlers for C06 (placeholder until the property is built). -/
-import PandoraModel.Model.Basic
+/- Line-protocol handlers for C06 (sub-pixel refinement): model evaluation and spec evaluation. -/
+import PandoraModel.Model.Refinement
 
 namespace Pandora.Driver.C06
 open Lean (Json)
+open Pandora Pandora.Refinement
 
-def handle (op : String) (_j : Json) : Except String Json :=
-  throw s!"unknown op {op}"
+def paramsOfJson (j : Json) : Except String Params := do
+  let m ← field j "method" >>= strOfJson
+  let method ← match m with
+    | "vfit" => pure Method.vfit
+    | "quadratic" => pure Method.quadratic
+    | _ => throw s!"unknown method {m}"
+  let isMax ← field j "is_max" >>= boolOfJson
+  let subpix ← field j "subpix" >>= natOfJson
+  let dmin ← field j "dmin" >>= ratOfJson
+  let dmax ← field j "dmax" >>= ratOfJson
+  let flag := fun (k : String) => match (fieldD j "variant" (Json.mkObj [])).getObjVal? k with
+    | .ok (Json.bool b) => b
+    | _ => false
+  let variant : Variant := { fixFlat := flag "flat", fixOr := flag "or", fixEnds := flag "ends" }
+  return { variant, method, isMax, subpix, dmin, dmax }
+
+def zip3 {α β γ : Type} : List α → List β → List γ → List (α × β × γ)
+  | a :: as, b :: bs, c :: cs => (a, b, c) :: zip3 as bs cs
+  | _, _, _ => []
+
+/-- cv (row, col, disp), disp (row, col), mask (row, col), optional pmin/pmax (row, col) -/
+def inputOfJson (P : Params) (j : Json) : Except String (List (List PixIn)) := do
+  let cv ← field j "cv" >>= listOfJson (listOfJson (listOfJson valOfJson))
+  let disp ← field j "disp" >>= gridOfJson valOfJson
+  let mask ← field j "mask" >>= gridOfJson natOfJson
+  let pmin ← match j.getObjVal? "pmin" with
+    | .ok v => gridOfJson ratOfJson v
+    | .error _ => pure (disp.map (·.map (fun _ => P.dmin)))
+  let pmax ← match j.getObjVal? "pmax" with
+    | .ok v => gridOfJson ratOfJson v
+    | .error _ => pure (disp.map (·.map (fun _ => P.dmax)))
+  if cv.length != disp.length || cv.length != mask.length || cv.length != pmin.length || cv.length != pmax.length then
+    throw "row counts differ"
+  let rows := zip3 cv (List.zip disp mask) (List.zip pmin pmax)
+  rows.mapM fun (cr, (dr, mr), (lo, hi)) => do
+    if cr.length != dr.length || cr.length != mr.length || cr.length != lo.length || cr.length != hi.length then
+      throw "column counts differ"
+    pure ((zip3 cr (List.zip dr mr) (List.zip lo hi)).map fun (c, (d, m), (l, h)) =>
+      ({ costs := c, d := d, flag := m, pmin := l, pmax := h } : PixIn))
+
+def errName : Err → String
+  | .zeroDivision => "zero_division"
+  | .outOfBounds => "out_of_bounds"
+  | .nanDisparity => "nan_disparity"
+
+def firstErr (g : List (List (Res PixOut))) : Option Err :=
+  g.flatten.findSome? fun r => match r with
+    | .err e => some e
+    | .ok _ => none
+
+/-- the model on every pixel (per-pixel results, so that the harness sees *which* pixel raises) -/
+def refine (j : Json) : Except String Json := do
+  let P ← paramsOfJson j
+  let g ← inputOfJson P j
+  let outs := g.map (·.map (refinePixel P))
+  let res := match firstErr outs with
+    | some e => errName e
+    | none => "ok"
+  -- consistency of the per-pixel view with the grid-level function
+  let whole := match loopRefinement P g with
+    | .ok _ => "ok"
+    | .err e => errName e
+  if whole != res then throw "loopRefinement and refinePixel disagree"
+  let coeff := outs.map (·.map fun r => match r with | .ok o => valToJson o.coeff | .err _ => Json.null)
+  let d := outs.map (·.map fun r => match r with | .ok o => valToJson o.d | .err _ => Json.null)
+  let flag := outs.map (·.map fun r => match r with | .ok o => natToJson o.flag | .err _ => Json.null)
+  let err := outs.map (·.map fun r => match r with | .ok _ => Json.str "" | .err e => Json.str (errName e))
+  return mkObj [
+    ("res", Json.str res),
+    ("coeff", gridToJson id coeff), ("disp", gridToJson id d), ("mask", gridToJson id flag),
+    ("err", gridToJson id err),
+    ("class", gridToJson (fun x => Json.str (classify P x).name) g),
+    ("trigger", gridToJson (fun x => Json.str (triggerOf P x)) g)]
+
+/-- the specification on given outputs (the implementation's): failing clauses per pixel -/
+def spec (j : Json) : Except String Json := do
+  let P ← paramsOfJson j
+  let g ← inputOfJson P j
+  let tol ← field j "tol" >>= ratOfJson
+  let oc ← field j "out_coeff" >>= gridOfJson valOfJson
+  let od ← field j "out_disp" >>= gridOfJson valOfJson
+  let om ← field j "out_mask" >>= gridOfJson natOfJson
+  if oc.length != g.length || od.length != g.length || om.length != g.length then throw "output row counts differ"
+  let mut fails : Array Json := #[]
+  let mut classes : List (String × Nat) := []
+  let mut r := 0
+  for (row, (cr, dr, mr)) in List.zip g (zip3 oc od om) do
+    if cr.length != row.length || dr.length != row.length || mr.length != row.length then
+      throw "output column counts differ"
+    let mut c := 0
+    for (x, (co, d, m)) in List.zip row (zip3 cr dr mr) do
+      let o : PixOut := { coeff := co, d := d, flag := m }
+      let cls := (classify P x).name
+      classes := match classes.find? (·.1 == cls) with
+        | some _ => classes.map fun (k, n) => if k == cls then (k, n + 1) else (k, n)
+        | none => classes ++ [(cls, 1)]
+      let f := failing P x o tol
+      if !f.isEmpty then
+        fails := fails.push (mkObj [("row", natToJson r), ("col", natToJson c),
+          ("clauses", listToJson Json.str f), ("class", Json.str cls), ("trigger", Json.str (triggerOf P x))])
+      c := c + 1
+    r := r + 1
+  return mkObj [("ok", Json.bool fails.isEmpty), ("failures", Json.arr fails),
+    ("classes", mkObj (classes.map fun (k, n) => (k, natToJson n)))]
+
+def handle (op : String) (j : Json) : Except String Json :=
+  match op with
+  | "C06.refine" => refine j
+  | "C06.spec" => spec j
+  | _ => throw s!"unknown op {op}"
 
 end Pandora.Driver.C06
